@@ -996,6 +996,34 @@ func callBuiltin(caller *frame, callpos token.Pos, fn *ssa.Builtin, args []value
 		}
 		return copy(args[0].([]value), src.([]value))
 
+	case "clear": // clear(map) / clear(slice)
+		switch x := args[0].(type) {
+		case *omap:
+			if x != nil {
+				x.entries = nil
+				x.idx = map[value]int{}
+			}
+		case *hashmap:
+			if x != nil {
+				for _, e := range x.order {
+					e.deleted = true
+				}
+				x.table = map[int]*entry{}
+				x.order = nil
+				x.length = 0
+			}
+		case []value:
+			if len(x) > 0 {
+				et := fn.Type().(*types.Signature).Params().At(0).Type().Underlying().(*types.Slice).Elem()
+				for k := range x {
+					x[k] = zero(et)
+				}
+			}
+		default:
+			panic(engineError(fmt.Sprintf("clear: %T", x)))
+		}
+		return nil
+
 	case "close": // close(chan T)
 		close(args[0].(chan value))
 		return nil
